@@ -57,6 +57,22 @@ TEMPLATES = [
     "function obj:method(self2) local self = self2 return self end",
     "local o = {}\nfunction o:a() local function inner() return self end return inner end\nfunction o:b() return self:a() end\nreturn o",
     "return self",
+    # an EXPLICIT parameter called self in a method: `function t:m(p)` is `t.m = function(self, p)`, the implicit
+    # receiver comes first, so the explicit parameter shadows it and the body's `self` is the argument
+    "local t = {}\nfunction t:m(self) return self end\nreturn t:m(7)",
+    "local t = { a = {} }\nfunction t.a:m(x, self) return self, x, self.x end\nreturn t.a:m(1, 2)",
+    "local t = {}\nfunction t:m(self, ...) local n = select('#', ...) return self.x, n, ... end\nreturn t:m({ x = 1 }, 2, 3)",
+    "local t = {}\nfunction t:m(a, self) return function() return self, a end end\nreturn t:m(1, 2)()",
+    "local t = {}\nfunction t:m(self) local f = function(b) return function() return self + b end end return f(1)() end\nreturn t:m(7)",
+    "local t = {}\nfunction t:m(self) local self = self return self end\nfunction t:n(self, self) return self end\nreturn t:m(1), t:n(1, 2)",
+    "local t = {}\nfunction t:outer(self) local u = {} function u:inner(x) return self, x end function u:own(self) return self end return u, self end\nreturn t:outer(3)",
+    # controls: methods without an explicit self, and a function (not a method) with a parameter self
+    "local t = {}\nfunction t:m(a) return self, a end\nfunction t.f(self, a) return self, a end\nfunction t:n(b) self.x = b return self:m(b) end\nreturn t:m(1), t.f(2, 3), t:n(4)",
+    # a local / upvalue called self outside any method
+    "local self = { v = 1 }\nlocal function get() return self.v end\nlocal t = {}\nfunction t.f() return self end\nfunction t:g() return self end\nfunction t:h(a) local g = get return function() return self, a, g() end end\nreturn get, t, self",
+    # a parameter called like the method's table; `...` together with self
+    "local t = {}\nfunction t:m(t) return self, t end\nfunction t.k(t, self) return t, self end\nfunction t:p(x, t, self) return self, t, x end\nreturn t",
+    "local o = {}\nfunction o:m(...) local s = self return self, ..., s end\nfunction o:n(self, ...) return ..., self end\nfunction o:q(a, self, ...) return select(self, ...), a end\nreturn o:m(1), o:n(2, 3), o:q(1, 2, 3)",
     # varargs
     "local function f(...) local a, b = ... return select('#', ...), a, b end\nreturn f(1, 2)",
     "local a = ...\nlocal function g(x, ...) return ..., x, a end\nreturn g",
@@ -144,12 +160,28 @@ class Gen:
             return "(%s)" % self.expr(d - 1)
         return "not %s" % self.expr(d - 1)
 
-    def params(self):
+    def params(self, explicit_self=False):
         r = self.r
         ps = [self.name() for _ in range(r.randint(0, 3))]
+        if explicit_self:
+            ps.insert(r.randint(0, len(ps)), "self")
         if r.random() < 0.25:
             ps.append("...")
         return ", ".join(ps)
+
+    def self_use(self, d):
+        """statements of a method body that read `self` observably"""
+        r = self.r
+        k = r.random()
+        if k < 0.3:
+            return "return self, %s" % self.expr(min(d, 1))
+        if k < 0.5:
+            return "return self.%s, self" % r.choice(FIELDS)
+        if k < 0.7:
+            return "return function(%s) return self, %s end" % (self.name(), self.name())
+        if k < 0.85:
+            return "local %s = self return %s, self:%s(%s)" % (self.name(), self.name(), r.choice(FIELDS), self.expr(0))
+        return "do local %s = self end return self" % self.name()
 
     def func(self, d):
         return "function(%s) %s end" % (self.params(), self.block(d, self.r.randint(0, 3), True))
@@ -210,7 +242,11 @@ class Gen:
         if k < 0.95:
             base = self.name()
             path = "".join("." + r.choice(FIELDS) for _ in range(r.randint(0, 2)))
-            meth = ":" + r.choice(FIELDS) if r.random() < 0.5 else ""
+            meth = ":" + r.choice(FIELDS) if r.random() < 0.6 else ""
+            if meth and r.random() < 0.6:
+                # the body reads self; half of the time an explicit parameter is called self too
+                body = " ".join([self.stmt(d - 1) for _ in range(r.randint(0, 2))] + [self.self_use(d - 1)])
+                return "function %s%s%s(%s) %s end" % (base, path, meth, self.params(r.random() < 0.5), body)
             return "function %s%s%s(%s) %s end" % (base, path, meth, self.params(),
                                                    self.block(d - 1, r.randint(0, 3), True))
         if self.luau:
